@@ -81,6 +81,7 @@ type streamScenario struct {
 	Src     string   `json:"src,omitempty"` // corpus | generated
 	Cuts    []int    `json:"cuts,omitempty"`
 	AllCuts int      `json:"all_cuts,omitempty"` // 1: every single cut, 2: every pair too
+	Fine    bool     `json:"fine,omitempty"`     // also: rune-by-rune, every 2nd/3rd rune, and deliveries with empty chunks
 	Kinds   []string `json:"kinds,omitempty"`
 	History []histOp `json:"history,omitempty"`
 }
@@ -350,6 +351,29 @@ func execStream(body json.RawMessage) *kernel.Result {
 			}
 		} else {
 			one(sc.Cuts)
+		}
+		// fine-grained deliveries: many chunks (rune by rune, every 2nd / 3rd rune) and empty chunks between
+		// non-empty ones - queue lengths and chunk counts that a handful of cuts never reaches
+		if sc.Fine && nr >= 2 && nr <= 600 {
+			every := func(k, off int, dup bool) []int {
+				var cs []int
+				for c := 1 + off; c < nr; c += k {
+					cs = append(cs, c)
+					if dup {
+						cs = append(cs, c)
+					}
+				}
+				return cs
+			}
+			for _, cs := range [][]int{every(1, 0, false), every(2, 0, false), every(3, 1, false), every(3, 0, true), every(7, 2, true)} {
+				if len(cs) == 0 {
+					continue
+				}
+				res.Probe(fmt.Sprintf("fine-chunks>=%d", bucketPow2(len(cs)+1)))
+				if !one(cs) {
+					return res
+				}
+			}
 		}
 	case "H":
 		whole := parseWhole(sc.Text, false)
@@ -695,6 +719,7 @@ func genStreamScenario(mode string) func(*kernel.RNG, string, int) interface{} {
 				sc.Cuts = biasedCuts(r, sc.Text, r.Range(1, 6))
 			}
 			sc.Kinds = randKinds(r, 4)
+			sc.Fine = i%3 == 0
 		case "H":
 			sc.History = genHistory(r)
 			if r.Chance(0.4) {
@@ -827,4 +852,12 @@ func init() {
 			mk("R-repl", "R", 1500, 20000),
 		},
 	})
+}
+
+func bucketPow2(n int) int {
+	b := 1
+	for b*2 <= n {
+		b *= 2
+	}
+	return b
 }
